@@ -533,6 +533,47 @@ theorem inv_runOps :
     have h2 := ih (applyOp s op) (pts ++ pointOf op) h1 hg.2
     simpa [runOps, pointsOf, List.append_assoc] using h2
 
+/-! ### the schema is fixed by good operations -/
+
+theorem flushAll_fieldTypes : ∀ (fams : List Nat) (s : Shard), (flushAll s fams).fieldTypes = s.fieldTypes := by
+  intro fams
+  induction fams with
+  | nil => intro s; rfl
+  | cons f rest ih => intro s; simp only [flushAll, List.foldl_cons] at ih ⊢; rw [ih, flush_fieldTypes]
+
+theorem compact_fieldTypes (s : Shard) (fam : Nat) : (s.compact fam).fieldTypes = s.fieldTypes := by
+  unfold Shard.compact
+  simp only
+  split
+  · rfl
+  · cases mergeBlocks s.fieldAgg (s.family fam).chron <;> rfl
+
+theorem applyOp_fieldTypes (s : Shard) (op : Op) (hg : goodOp s op = true) :
+    (applyOp s op).fieldTypes = s.fieldTypes := by
+  cases op with
+  | write tick fam ser fld ft slot v =>
+    simp only [goodOp, Bool.and_eq_true, beq_iff_eq] at hg
+    exact write_fieldTypes s tick fam ser fld ft slot v hg.1.1
+  | flush fam => exact flush_fieldTypes s fam
+  | compact fam => exact compact_fieldTypes s fam
+  | reopen => simp only [applyOp, Shard.reopen]; exact flushAll_fieldTypes _ s
+
+theorem runOps_fieldTypes : ∀ (ops : List Op) (s : Shard), goodOps s ops = true →
+    (runOps s ops).fieldTypes = s.fieldTypes := by
+  intro ops
+  induction ops with
+  | nil => intro s _; rfl
+  | cons op rest ih =>
+    intro s hg
+    simp only [goodOps, Bool.and_eq_true] at hg
+    have := ih (applyOp s op) hg.2
+    simp only [runOps, List.foldl_cons] at this ⊢
+    rw [this, applyOp_fieldTypes s op hg.1]
+
+theorem runOps_fieldAgg (s : Shard) (ops : List Op) (hg : goodOps s ops = true) (fld : Nat) :
+    (runOps s ops).fieldAgg fld = s.fieldAgg fld := by
+  simp [Shard.fieldAgg, runOps_fieldTypes ops s hg]
+
 /-- the empty shard with a registered schema satisfies the invariant. -/
 theorem inv_init (w : Nat) (hw : 0 < w) (sch : List (Nat × FieldType)) :
     Inv { Shard.init w with fieldTypes := sch } [] := by
